@@ -116,3 +116,19 @@ def replay(prop, path):
     v.add_cov(states=1, transitions=1)
     v.sample({"replayed": str(path)})
     v.finish()
+
+
+def tcp_group_histories(v, drv, d, seed, n, stats):
+    """tcp group histories (fixed and server-chosen port) of the real frps validated against Trace_FrpsGroups: every probe compares the
+    port manager's used set with the open groups, the reported address with the accepting port, the re-acquired port with the previous one."""
+    tf = d / "groups-tcp.ndjson"
+    p = vlib.run_driver(drv, ["groups", "-seed", seed * 10 + 7, "-n", n, "-steps", 10, "-kind", "tcp", "-out", tf], timeout=2400,
+                        env_extra=vlib.trace_env("Trace_FrpsGroups"), ok_codes=(0, 2))
+    gstats = {}
+    parse_stats(p.stdout, gstats)
+    ok = validate(v, "Trace_FrpsGroups", (vlib.SPEC / "Trace_FrpsGroups.cfg").read_text(), tf, "groups[tcp]")
+    if p.returncode != 0 and ok:
+        raise vlib.Infra(f"groups driver died (exit {p.returncode}) without a trace-level violation:\n{p.stderr[-1500:]}")
+    for k, val in gstats.items():
+        stats["group_" + k] = val
+    return ok
